@@ -978,3 +978,18 @@ for _o in OBLIGATIONS:
     if _o["id"] in ("C14.timeout", "C03.owner_leaves") or _o["id"].startswith("C03.route_fault_"):
         if "C02" not in _o["props"]:
             _o["props"].append("C02")      # they carry a C02.response_only_to_the_requester label
+
+# the leaving connection's own readiness registration is removed before / after the peer bookkeeping (then the request's timer)
+for _k, _kn in ((1, "owner_disconnect"), (2, "caller_disconnect")):
+    for _oe, _on in ((1, "own_event_removed_first"), (2, "own_event_removed_last")):
+        O(id="C14.batch_%s_then_expiry_%s" % (_kn, _on), props=["C14", "C03", "C05", "C06", "C07"], entry="harness_batch", defines=["REPLY_FIRST=1", "BATCH_KIND=%d" % _k, "OWN_EVENT=%d" % _oe],
+          functions=["handle_events", "eventloop_epoll_add", "eventloop_epoll_remove", "cjet_timer_init", "timer_read", "timer_cancel", "cjet_timer_destroy",
+                     "free_peer_resources", "remove_routing_info_from_peer", "remove_peer_from_routes", "request_timeout_handler", "setup_routing_information"],
+          symbolic="set value", assumes=["set-up requests succeed", "the timer did expire (reading the timerfd returns one expiration)"],
+          bounds="one routed request; one batch of two events (%s then expiry; %s)" % (_kn, _on), **_scn_batch)
+_also(["C14.batch_"], ["C14", "C06"])
+
+for _err in (0, 1):
+    O(id="C03.reply_to_request_without_id_" + ("error" if _err else "result"), props=["C03", "C07", "C14"], entry="harness_reply_to_request_without_id",
+      defines=["REPLY_ERROR=1"] if _err else [], functions=_RF, symbolic="set value, reply payload", assumes=["set-up succeeds"],
+      bounds="skeleton: O add 's'; A set without id; O replies; A set without id again; the deadline passes", **_scn_route)
